@@ -47,9 +47,13 @@ DERIVED = {
               "assemNum": "identity", "kgHM": "setBlockMassParams", "kgFis": "setBlockMassParams", "puFrac": "setBlockMassParams"},
     "Component": {"temperatureInC": "changed through setTemperature (dimensions and densities follow it)",
                   "theoreticalDensityFrac": "changed together with material.adjustTD (the material state follows it on load)",
+                  "mult": "a dimension (multiplicity) even on shapes that do not list it in DIMENSION_NAMES; the loader needs a number",
                   "volume": "recomputed from dimensions", "area": "recomputed for derived shapes"},
     "*": {"serialNum": "identity", "flags": "derived from the name; not saved"},
 }
+
+# numeric parameters the public bookkeeping API reads as numbers (setBlockMassParams: `molesHmBOL > 0`): never unset
+NONE_UNSAFE = {"molesHmBOL", "massHmBOL"}
 
 FIXTURES = {
     "smallest": ("smallestTestReactor", "armiRunSmallest.yaml"),
@@ -382,6 +386,8 @@ def compare(d0, d1, what):
                 continue        # recomputed on load: equal up to floating-point re-evaluation (1e-12 relative)
             if v != w:
                 key = "parameter"
+                if v is None and all(o["params"].get(pn) is None for o in d0.values() if o["type"] == a["type"]):
+                    key = "all-none-column"     # every object of the class holds None: the column is not written at all
                 if (isinstance(v, tuple) and isinstance(w, tuple) and len(v) == 3 and len(w) == 3 and v[0] == "i" and w[0] == "f"
                         and v[1] == w[1] and all(str(fcode(float(x))) == str(y) for x, y in zip(v[2], w[2]))):
                     key = "int-reads-back-as-float"
@@ -456,7 +462,20 @@ def mutate(rng, o, r, nobj, ops):
             cur = c.p.get(p.name, p.default)
             if cur is parameters.NoDefault:
                 continue
+            if cur is None and p.default is not None and isinstance(p.default, (int, float)) and not isinstance(p.default, bool):
+                cur = p.default     # unset earlier by an assign-None edit: give it a number again, not an array
             val = new_value(rng, cur, p.name, i)
+            if (p.default is not None and isinstance(cur, (int, float, np.integer, np.floating)) and not isinstance(cur, (bool, np.bool_))
+                    and p.name not in NONE_UNSAFE and rng.random() < 0.15):
+                # explicitly UNSET a parameter whose default is a number, next to siblings holding numbers: it must read
+                # back None, not the default / constructor value (bool and str columns refuse None at write time: C05)
+                try:
+                    c.p[p.name] = None
+                    ops.append(["setparam", i, p.name, None])
+                except Exception:  # noqa: BLE001
+                    with contextlib.suppress(Exception):
+                        c.p[p.name] = cur
+                continue
             if val is None:
                 continue
             try:
@@ -637,7 +656,7 @@ def record_edit_states(ctx, fixture, r, new_ops):
         form = ""
         if kind == "setparam":
             v = op[3]
-            form = ("array%dd" % np.ndim(v)) if isinstance(v, list) else type(v).__name__
+            form = ("array%dd" % np.ndim(v)) if isinstance(v, list) else "assign-None" if v is None else type(v).__name__
             if isinstance(v, list) and len(op) > 4 and op[4]:
                 form += "-noncontiguous"
         elif kind == "setNumberDensities":
@@ -718,6 +737,7 @@ def load_db(o, r, fn):
 
 
 KNOWN_KEYS = {
+    "all-none-column": "assigned-none-on-every-object-of-a-class-loads-as-default",
     "material-density": "material-input-modifications-not-restored",
     "shared-grid": "shared-grid-instance-loads-as-per-object-copies",
     "int-reads-back-as-float": "int-reads-back-as-float-in-mixed-column",
@@ -1145,6 +1165,37 @@ def excluded_points(ctx, req, impl, cases):
             if done:
                 break
     ctx.count("excluded point: no-default parameter assigned on one object of its class")
+    # a parameter with a numeric default explicitly assigned None: on one object among numeric siblings (must read back
+    # None), then on EVERY object of the class (the all-None column is not written: what comes back is recorded)
+    from armi.reactor.blocks import Block as _Block
+    for scope in ("one", "all"):
+        with silence(), contextlib.suppress(LoadFailed, WriteRejected):
+            o, r = load_fixture("c5g7")
+            objs = all_objects(r)
+            blocks = [(i, b) for i, b in enumerate(objs) if isinstance(b, _Block)]
+            klass = type(blocks[0][1])
+            blocks = [(i, b) for i, b in blocks if type(b) is klass]
+            pd_ = None
+            for cand in ("timeToLimit", "avgFuelTemp", "crCriticalFraction"):
+                for q in blocks[0][1].p.paramDefs:
+                    if q.name == cand and q.saveToDB and q.default is not None and isinstance(q.default, (int, float)):
+                        pd_ = q
+                        break
+                if pd_ is not None:
+                    break
+            if pd_ is None:
+                pd_ = next(q for q in blocks[0][1].p.paramDefs if q.saveToDB and is_free(blocks[0][1], q.name)
+                           and isinstance(q.default, float))
+            ops = []
+            for n, (i, b) in enumerate(blocks):
+                if scope == "all" or n == 1:
+                    b.p[pd_.name] = None
+                    ops.append(["setparam", i, pd_.name, None])
+                else:
+                    b.p[pd_.name] = 1.5 + n
+                    ops.append(["setparam", i, pd_.name, 1.5 + n])
+            roundtrip_checks(ctx, "c5g7", o, r, ops, "none-" + scope, deep=False)
+        ctx.count(f"excluded point: numeric-default parameter `{pd_.name if pd_ else '?'}` assigned None on {scope} block(s)")
 
 
 def full_core_round(ctx, rng, req, impl, cases):
@@ -1185,7 +1236,10 @@ def run(ctx):
             with silence():
                 o, r = load_fixture(fixture)
             ops = []
-            for rd in range(rounds + 1):
+            schedule = list(range(rounds + 1))
+            retries = 2
+            while schedule:
+                rd = schedule.pop(0)
                 if rd == 0 and not ctx.thorough and nobj > 100:
                     continue        # quick tier: the large inputs are checked in their edited state only
                 if rd > 0:
@@ -1199,6 +1253,9 @@ def run(ctx):
                             ctx.count(f"{fixture}: edited state invalid before saving ({type(e).__name__})")
                             o, r = load_fixture(fixture)
                             ops = []
+                            if retries > 0:
+                                retries -= 1
+                                schedule.insert(0, rd)     # draw another edit set for this round
                             continue
                 with silence():
                     try:
@@ -1212,6 +1269,9 @@ def run(ctx):
                             break
                         o, r = load_fixture(fixture)
                         ops = []
+                        if retries > 0 and rd > 0:
+                            retries -= 1
+                            schedule.insert(0, rd)
                         continue
                     except LoadFailed:
                         break
